@@ -192,6 +192,11 @@ func init() {
 		e.exactBE = a[0].(*T).IsTrue()
 		return nil
 	})
+	reg(vp+"ExactDecimalLengths", func(e *Engine, fn *ssa.Function, a []Value) Value {
+		e.exactDecLen = a[0].(*T).IsTrue()
+		return nil
+	})
+	reg(vp+"Thorough", func(e *Engine, fn *ssa.Function, a []Value) Value { return BoolConst(e.cfg.Thorough) })
 	reg(vp+"CollisionFree", func(e *Engine, fn *ssa.Function, a []Value) Value {
 		e.collisionFree = a[0].(*T).IsTrue()
 		return nil
